@@ -89,11 +89,13 @@ func init() {
 		Title:   "duplicate suppression dominates delivery: stream.handleData only via pushPayloadDataToStream (after payloadQueue.push), only via acceptPayloadData, only under canPush(chunk.tsn)",
 		MinInst: 5,
 		Run: func(c *RuleCtx) {
-			pushTo := c.Fn("Association.pushPayloadDataToStream")
+			pushTo := c.deliverFn()
 			accept := c.Fn("Association.acceptPayloadData")
 			hd := c.Fn("Association.handleData")
-			c.RegionCallers("deliver", c.Fn("Stream.handleData"), "Association.pushPayloadDataToStream")
-			c.RegionCallers("deliver", pushTo, "Association.acceptPayloadData")
+			c.RegionCallers("deliver", c.Fn("Stream.handleData"), c.P.FuncName(pushTo))
+			if pushTo != accept {
+				c.RegionCallers("deliver", pushTo, "Association.acceptPayloadData")
+			}
 			c.CallersWithin("accept", accept, "Association.handleData")
 			rq := c.Fn("receivePayloadQueue.push")
 			tsn := c.field("chunkPayloadData", "tsn")
